@@ -70,10 +70,16 @@ def band_instances(ctx, rule):
             return False
         bad = None
         n = 0
+        exempt = []
         for q in a.ok_paths():
             if not any(vstate_write(e) for e in q.events):
                 continue
             n += 1
+            if variant == "SwapOutput":
+                for e in q.events:
+                    if e.target is not None and vstate_write(e):
+                        bools = [x for x in e.args if tag(ix.inline(x)) == "bool"]
+                        exempt.append(bool(bools) and all(payload(ix.inline(x))[0] == 1 for x in bools))
             # the check lives in the writer's callee: evaluate writer paths
             ok = False
             for e in q.events:
@@ -86,6 +92,11 @@ def band_instances(ctx, rule):
                     flag_const["v"] = False
             if not ok and not guards.path_satisfies(ix, q, band_pred, None):
                 bad = bad or q
+        if variant == "SwapOutput" and rule == "R07.6":
+            # availability side (C07): the swap that closes or liquidates a position is not refused for leaving the band -
+            # SwapOutput hands the reserve writer its "may go over" flag as the literal true
+            ctx.inst(rule, "closing-swap-not-band-limited:SwapOutput", bool(exempt) and all(exempt), a.fn.where(),
+                     "%d reserve-writer calls; the may-go-over flag is %s" % (len(exempt), "the literal true" if exempt and all(exempt) else "NOT the literal true: a liquidation that moves the price past the band is refused"))
         ctx.inst(rule, "band-before-write:%s" % variant, bad is None and n > 0, a.fn.where(),
                  "%d writing success paths; %s" % (n, "each reserve write is preceded by the strict already-outside tests and (flag or would-leave tests), or limit==0" if bad is None
                     else "a reserve write is not covered by the band check (or the check is not the strict/unconditional form)"))
